@@ -157,6 +157,11 @@ pub fn round_trip(members: &[(u64, u64)]) -> Result<u64, (String, String)> {
                 if rest != 0 {
                     return Err((format!("{label} output has unread trailing bytes"), vcore::hex(&bytes)));
                 }
+                match vcore::guard(|| IntSet::<u32>::from_sparse_bit_set(&bytes)) {
+                    Ok(Ok(p)) if p == s && set_ranges(&p) == members => {}
+                    Ok(_) => return Err((format!("from_sparse_bit_set does not return the set encoded by {label}"), vcore::hex(&bytes))),
+                    Err(p) => return Err((format!("from_sparse_bit_set panic after {label}: {}", p.kind()), p.message)),
+                }
             }
         }
         // encoder output read by the specification's decoder
@@ -216,6 +221,25 @@ pub fn decode_case(data: &[u8], bias: u32, max: u32) -> Result<(DecodeOutcome, u
         Ok(g) => g,
         Err(p) => return Err((format!("from_sparse_bit_set_bounded panic {}", p.kind()), format!("{} at {}:{}", p.message, p.file, p.line))),
     };
+    // `from_sparse_bit_set(data)` is documented as the same decoding without bias / maximum: it must
+    // agree with `from_sparse_bit_set_bounded(data, 0, u32::MAX)` (Ok/Err and members) on every input
+    if bias == 0 && max == u32::MAX {
+        let plain = match vcore::guard(|| IntSet::<u32>::from_sparse_bit_set(data).map(|s| (set_ranges(&s), s.len()))) {
+            Ok(g) => g,
+            Err(p) => return Err((format!("from_sparse_bit_set panic {}", p.kind()), format!("{} at {}:{}", p.message, p.file, p.line))),
+        };
+        let same = match (&plain, &got) {
+            (Ok((pm, pl)), Ok((m, l, _))) => pm == m && pl == l,
+            (Err(_), Err(_)) => true,
+            _ => false,
+        };
+        if !same {
+            return Err((
+                "from_sparse_bit_set differs from from_sparse_bit_set_bounded(.., 0, u32::MAX)".into(),
+                format!("plain {:?} bounded {:?}", plain.as_ref().map(|(m, l)| (m.iter().take(4).collect::<Vec<_>>(), *l)).map_err(|_| "Err"), got.as_ref().map(|(m, l, _)| (m.iter().take(4).collect::<Vec<_>>(), *l)).map_err(|_| "Err")),
+            ));
+        }
+    }
     if !supported {
         return Ok((DecodeOutcome::UnsupportedHeight, 1));
     }
@@ -255,4 +279,52 @@ pub fn decode_case(data: &[u8], bias: u32, max: u32) -> Result<(DecodeOutcome, u
             Ok((DecodeOutcome::Compared { ok_result: true, members: pop }, h.finish()))
         }
     }
+}
+
+// ---------------------------------------------------------------------------
+// structured decoder inputs: streams built node by node (so that the wide branch factors, whose
+// nodes are 1 and 4 bytes, get complete multi-node trees, which the raw byte-string sweep cannot
+// reach within its length bound)
+// ---------------------------------------------------------------------------
+
+/// header + nodes packed as the specification says (B bits per node, least significant bit first)
+pub fn pack_nodes(bf: u32, height: u32, nodes: &[u32]) -> Vec<u8> {
+    let code = match bf {
+        2 => 0u8,
+        4 => 1,
+        8 => 2,
+        _ => 3,
+    };
+    let mut out = vec![code | ((height as u8 & 31) << 2)];
+    let mut bitpos = 0usize;
+    for n in nodes {
+        for i in 0..bf as usize {
+            if bitpos % 8 == 0 {
+                out.push(0);
+            }
+            if n >> i & 1 == 1 {
+                *out.last_mut().unwrap() |= 1 << (bitpos % 8);
+            }
+            bitpos += 1;
+        }
+    }
+    out
+}
+
+/// node values per branch factor: filled, lowest / highest child, both, two lowest, a middle child,
+/// all children (BF32 also a bit in each of the four bytes)
+pub fn node_alphabet(bf: u32) -> Vec<u32> {
+    let top = 1u32 << (bf - 1);
+    let mask = if bf == 32 { u32::MAX } else { (1u32 << bf) - 1 };
+    let mut v = vec![0, 1, top, 1 | top, 3 & mask, 1 << (bf / 2), mask];
+    if bf == 32 {
+        v.extend([1 << 8, 1 << 23]);
+    }
+    let mut seen = vec![];
+    for x in v {
+        if !seen.contains(&x) {
+            seen.push(x);
+        }
+    }
+    seen
 }
